@@ -1579,7 +1579,10 @@ impl Vm {
     }
 
     fn reset_stack(&mut self) {
-        if let Some(fiber) = self.fiber.as_ref() {
+        // The run is over for the fiber that failed and for every fiber up the chain that was
+        // waiting for it: none of them can be resumed, so all of them end up finished.
+        let mut next = self.fiber.as_ref().map(|fiber| fiber.as_gc());
+        while let Some(fiber) = next {
             let mut borrowed_fiber = fiber.borrow_mut();
             // Closures made by the frames that are being discarded may have escaped (into a
             // global, say) and may be called by a later run: give them their variables.
@@ -1588,6 +1591,7 @@ impl Vm {
             }
             borrowed_fiber.stack.clear();
             borrowed_fiber.frames.clear();
+            next = borrowed_fiber.caller.take();
         }
     }
 
